@@ -6,6 +6,7 @@ package main
 
 import (
 	"fmt"
+	"go/ast"
 	"go/token"
 	"go/types"
 	"os/exec"
@@ -29,6 +30,7 @@ func checkC20(p *Prog, r *Report) {
 	ruleNilGuards(p, r)
 	ruleTypeAsserts(p, r)
 	ruleRefGraphAcyclic(p, r)
+	ruleUnboundedLoops(p, r)
 	r.Trusted = []string{"the Go compiler's prove pass (bounds-check elimination) is sound", "go/ssa, call graph",
 		"the written invariants I1..I6 of tables/bounds_audit.tsv (each row carries its reason; classes I5 and K have their own machine checks)"}
 	r.NotDec = "crash-freedom is NOT proved: the check claims that every potential crash site is compiler-proved, covered by a written invariant, or a listed finding, and that no new one can appear unnoticed. Hangs (termination) are only covered for the recursive walkers via R20.5."
@@ -687,4 +689,50 @@ func ruleCapturedGuards(p *Prog, r *Report) {
 		}
 	}
 	r.floor("R20.2c", "guarded accesses to the captured slice", n, 8)
+}
+
+// ruleUnboundedLoops: R20.6.
+func ruleUnboundedLoops(p *Prog, r *Report) {
+	r.rule("R20.6", "Termination of loops without a loop condition (`for { ... }`, `for i := 1; ; i++`) in the packages that handle input files: each one is enumerated from the AST and must be audited in tables/loops_audit.tsv (function, count, progress argument); a new unbounded loop form is undecided. Bounded range loops and condition loops over shrinking slices are not listed (their conditions are visible); recursion is covered by R20.5.")
+	audit := map[string][]string{}
+	for _, row := range readTable("loops_audit.tsv", 3) {
+		audit[row[0]] = row
+	}
+	counts := map[string]int{}
+	pos := map[string]string{}
+	for _, pk := range p.prodPkgs() {
+		if !fileInputPkgs[shortPath(pk.PkgPath)] {
+			continue
+		}
+		for _, f := range pk.Syntax {
+			ast.Inspect(f, func(n ast.Node) bool {
+				fs, ok := n.(*ast.ForStmt)
+				if !ok || fs.Cond != nil {
+					return true
+				}
+				name := enclosingFuncDisplay(pk, f, fs.Pos())
+				counts[name]++
+				if pos[name] == "" {
+					pos[name] = p.pos(fs.Pos())
+				}
+				return true
+			})
+		}
+	}
+	var names []string
+	for n := range counts {
+		names = append(names, n)
+	}
+	sort.Strings(names)
+	for _, n := range names {
+		row, ok := audit[n]
+		if !ok {
+			r.fail("R20.6", "unbounded-loop|"+n, pos[n], fmt.Sprintf("%d loop(s) without condition in %s are not audited", counts[n], n), "a loop that may not terminate on some input: the program hangs instead of ending with a diagnostic")
+			continue
+		}
+		var a int
+		fmt.Sscan(row[1], &a)
+		r.add("R20.6", "unbounded-loop|"+n, pos[n], fmt.Sprintf("%d loop(s) without condition in %s: %s", counts[n], n, row[2]), counts[n] <= a, "more unbounded loops than audited")
+	}
+	r.floor("R20.6", "functions with condition-less loops", len(names), 4)
 }
